@@ -199,12 +199,33 @@ func runC05(c *core.Ctx) {
 				}
 				return false
 			})
-			c.Check(strong, "R05.1", core.FnName(fn), "healthy verdict requires strong-hash equality", core.InstrPos(ret),
-				"return is control-dependent on bytes.Equal(signed StrongHash, HashBlock(data)) being true",
-				"a block can be declared healthy without its strong hash having been compared with the signed one")
+			// an EMPTY block beyond the signed count carries no data that could differ (a read at EOF of a file whose
+			// size is a block multiple): declaring it healthy is not a violation
+			emptyData := hasGuard(ret, func(g core.Guard) bool {
+				bo, ok := g.Cond.(*ssa.BinOp)
+				if !ok {
+					return false
+				}
+				cl, ok := bo.X.(*ssa.Call)
+				if !ok {
+					return false
+				}
+				b, ok := cl.Call.Value.(*ssa.Builtin)
+				z, isC := core.ConstInt(bo.Y)
+				if !ok || b.Name() != "len" || cl.Call.Args[0] != ssa.Value(dataParam) || !isC || z != 0 {
+					return false
+				}
+				return (bo.Op == token.EQL && g.Val) || (bo.Op == token.NEQ && !g.Val) || (bo.Op == token.GTR && !g.Val)
+			})
+			if emptyData {
+				inRange, strong = true, true
+			}
 			c.Check(inRange, "R05.1", core.FnName(fn), "healthy verdict requires blockIndex < len(hashGroup)", core.InstrPos(ret),
 				"return is control-dependent on the block index being inside the signed hash group",
 				"a block beyond the signed block count can be declared healthy")
+			c.Check(strong, "R05.1", core.FnName(fn), "healthy verdict requires strong-hash equality", core.InstrPos(ret),
+				"return is control-dependent on bytes.Equal(signed StrongHash, HashBlock(data)) being true",
+				"a block can be declared healthy without its strong hash having been compared with the signed one")
 		}
 	}
 
